@@ -8,18 +8,47 @@ from .main import REGISTRY
 EXPL = "exploration"
 
 # property -> (engine, technique, level text, level note, design ref)
+TB = "Trusts SMT-LIB semantics as implemented by z3 5.1 and cvc5 1.0.3 on tiny quantifier-free inputs (two references must agree before a violation is reported), and the generator's own stack/scope model. Holds only for the executions produced."
 META = {
     "C01": ("scriptdiff", "differential runtime monitoring vs two reference solvers",
             "Every check-sat answer of generated scripts (17 logics x option vectors x push/pop histories) is compared "
-            "with a two-reference consensus (z3 5.1 + cvc5/z3 4.8) on the generator's own copy of the assertion stack; "
-            "a confirmed 'unsat' on a satisfiable stack is a violation. Exploration over thousands of seeded scripts, "
-            "not a proof.",
-            "Trusts SMT-LIB semantics as implemented by z3 and cvc5 on tiny QF inputs (two must agree), and the "
-            "generator's stack model. Holds only for the scripts generated.", "4/C01"),
+            "with a two-reference consensus on the generator's own copy of the assertion stack; a confirmed 'unsat' on a "
+            "satisfiable stack is a violation. Exploration over seeded scripts, not a proof.", TB, "4/C01"),
     "C02": ("scriptdiff", "differential runtime monitoring vs two reference solvers",
-            "As C01 for 'sat' answers, with generation biased to integer problems, difference logic with constants "
-            "beyond 2^31/2^53/2^63, arrays and UF+arithmetic; a confirmed 'sat' on an unsatisfiable stack is a violation.",
-            "Same trusted base as C01.", "4/C02"),
+            "As C01 for 'sat' answers, generation biased to integer problems, difference logic with constants beyond "
+            "2^31/2^53/2^63, arrays and UF+arithmetic.", TB, "4/C02"),
+    "C03": ("outputs", "offline checker over printed models/values/assignments (evaluation by two references)",
+            "After every sat of generated scripts the printed model must define every declared symbol and, together with "
+            "the recorded current assertions, be satisfiable as a closed ground problem; get-value and get-assignment "
+            "responses must be valid under that same model.", TB, "4/C03"),
+    "C04": ("scriptdiff", "history monitor: incremental run vs fresh process per check, and vs the history without queries",
+            "Each definitive answer of a push/pop/assert/check/get-* history is compared with a fresh opensmt process on "
+            "exactly the generator's stack at that moment, and with the same history with all get-* removed.",
+            "Self-consistency of the same binary (references only for blame); generator stack model mirrors accepted commands only.", "4/C04"),
+    "C05": ("scriptdiff", "metamorphic monitor across configurations",
+            "The same script is run under K option vectors / logic embeddings; one sat and one unsat for the same check "
+            "is a violation (configurations that reject different commands are not compared).",
+            "Pure self-consistency; holds for the sampled configurations only.", "4/C05"),
+    "C06": ("outputs", "offline checker over printed unsat cores (two-reference unsat check + scope model)",
+            "After every unsat the printed core must be a repetition-free list of names of current assertions and, with the "
+            "unnamed current assertions, unsatisfiable; full cores: every printed formula equivalent to a current assertion "
+            "and the set unsat.", TB, "4/C06"),
+    "C07": ("outputs", "offline checker: every single removal from a minimal core must be satisfiable",
+            "With :minimal-unsat-cores each reported core is re-checked: core minus any one element plus the unnamed "
+            "assertions must be satisfiable (two references).", TB, "4/C07"),
+    "C08": ("outputs", "offline checker over printed interpolants (implication, inconsistency, shared symbols)",
+            "For random A/B splits after unsat: the request must not be rejected, A => I, I and B unsat (B = all other "
+            "current assertions), symbols of I shared; all interpolation algorithms/options, push/pop histories.", TB, "4/C08"),
+    "C09": ("outputs", "offline checker over sequence interpolants (Craig + path property)",
+            "k>=3 ordered groups: each I_j is a Craig interpolant for the first j groups vs the rest and "
+            "I_j and G_(j+1) imply I_(j+1).", TB, "4/C09"),
+    "C29": ("scriptdiff", "differential runtime monitoring on out-of-fragment scripts",
+            "Scripts generated with a richer profile than the declared logic; each command must be rejected or every "
+            "definitive answer must agree with the reference consensus on the accepted assertions.", TB, "4/C29"),
+    "C30": ("scriptdiff", "bounded-progress monitor (CPU-time watchdog with confirmation re-runs)",
+            "Non-integer logics x alternative engines x push/pop histories which the default engine and z3 decide "
+            "quickly; a check-sat exceeding the CPU budget twice (30/60 s quick, 60/120 s thorough) is a divergence.",
+            "Unbounded termination cannot be decided by finite runs; restated as bounded progress as in the property's quantifier text.", "4/C30"),
 }
 
 ALL_PROPS = ["C%02d" % i for i in range(1, 31)]
@@ -70,8 +99,12 @@ def main():
 NA_REASON = {}
 HOOK_COMMITS = []
 ENGINES = [
-    {"name": "scriptdiff", "path": "vlib/checks/answers.py", "serves_properties": ["C01", "C02"],
-     "kind_free_text": "seeded script generator + opensmt executable + reference-solver consensus oracle"},
+    {"name": "scriptdiff", "path": "vlib/checks/answers.py, vlib/checks/history.py",
+     "serves_properties": ["C01", "C02", "C04", "C05", "C29", "C30"],
+     "kind_free_text": "seeded script generator + opensmt executable + reference-solver consensus / self-consistency oracles"},
+    {"name": "outputs", "path": "vlib/checks/models.py, cores.py, itp.py, vlib/outputs.py",
+     "serves_properties": ["C03", "C06", "C07", "C08", "C09"],
+     "kind_free_text": "offline checkers over what opensmt prints (models, values, assignments, cores, interpolants)"},
 ]
 
 if __name__ == "__main__":
